@@ -16,7 +16,8 @@ RULE = ('random (optionally time-dependent) Hermitian chains of 4-8 sites (neare
         'dense exp(-iHt) reference at two step sizes (error ratio = order), exact ledgers of evolved_time and of the truncation '
         'error (engine attribute vs sum of evolve() return values vs sum over all truncate() calls), charge/norm/energy '
         'conservation, and equality of split runs; the Suzuki-Trotter schedules are checked exhaustively for N_steps <= 40. '
-        'non-trivial = non-commuting model; distinct = (engine, options, model signature)')
+        'non-trivial = non-commuting model; distinct = (engine, options, model signature)'
+        ' Also: imaginary-time TEBD sweeps (update_imag: truncation ledger, split independence, direction of exp(-tau H)), TEBD trunc_err_bonds.')
 ASSUMPTIONS = ['C10 (dense H from the recorded terms), C07 (dense state of an MPS)', 'scipy/numpy eigh as ground truth for exp(-iHt)']
 ANCHORS = {'tenpy/algorithms/tebd.py': ['*'], 'tenpy/algorithms/tdvp.py': ['*'], 'tenpy/algorithms/mpo_evolution.py': ['*'],
            'tenpy/algorithms/algorithm.py': ['*']}
